@@ -63,6 +63,8 @@ S0 == [ mem    |-> <<>>,                       \* Seq([k, v, loc, age]) FIFO ord
         loc    |-> [k \in Keys |-> "none"],    \* placement advice of the version that is truth[k]
         nv     |-> 0,
         vkey   |-> <<>>,                       \* key of version i
+        heldph |-> <<>>,                       \* disk-only (phantom) records whose handle the caller still holds: <<k, v>>
+        late   |-> {},                         \* keys republished by the late drop of an older disk-only handle (finding F12)
         shed   |-> {},                         \* keys whose latest disk write was shed (flush buffer full): outside C01 / C15
         touched |-> Keys,                      \* keys operated on since the last reopen (C15 looks at the others)
         enq    |-> <<>>,                       \* hashes offered to the disk tier (admission filter calls) in this step
@@ -173,37 +175,64 @@ Begin(T) == [T EXCEPT !.enq = <<>>, !.enqv = <<>>, !.wr = <<>>]
 Init == S = S0 /\ out = [op |-> [a |-> "init"], res |-> 0]
 
 \* insert_with_properties(k, v, location), handle dropped at once
-InsertGen(k, nt) ==
+\* Store::delete: the write-queue entry of the key is dropped, a tombstone with a fresh sequence replaces the
+\* index entry at once and is submitted to the flusher
+DiskDelete(T, k) ==
+    [T EXCEPT !.keeper[k] = 0, !.seq = @ + 1,
+              !.index = IndexPut(@, Hash[k], [kind |-> "tomb", k |-> 0, v |-> 0, seq |-> T.seq]),
+              !.buf = Append(@, <<"t", Hash[k], T.seq>>)]
+
+\* insert_with_properties(k, v, location); hold = the caller keeps the returned handle (else dropped at once)
+InsertGen(k, nt, hold) ==
     /\ S.active
     /\ LET T == Begin(S)
            loc == KeyLoc[k]
            v == T.nv + 1
            T1 == [T EXCEPT !.nv = v, !.truth[k] = v, !.loc[k] = loc, !.vkey = Append(@, k),
-                           !.touched = @ \cup {k}]
+                           !.touched = @ \cup {k}, !.late = @ \ {k}]
            T2 == IF loc = "ondisk"
-                 THEN \* phantom: the old memory copy leaves (replace), the new record is never resident;
-                      \* its handle drop offers it to the pipe (woe); woi enqueues at insert
+                 THEN \* phantom: the old memory copy leaves (replace), the new record is never resident.
+                      \* woi enqueues it at insert.  woe: it goes down the pipe when its last handle is
+                      \* dropped; until then nothing of the key may be served from the disk tier, so the
+                      \* older disk copy is invalidated at insert (fix for finding F11)
                       LET T3 == [T1 EXCEPT !.mem = MemWithout(T1, k)] IN
-                      Enqueue(T3, k, v, "fresh")
+                      IF Policy = "woi" THEN Enqueue(T3, k, v, "fresh")
+                      ELSE LET T4 == DiskDelete(T3, k) IN
+                           IF hold THEN [T4 EXCEPT !.heldph = Append(@, <<k, v>>)] ELSE Enqueue(T4, k, v, "fresh")
                  ELSE LET T3 == MemInsert(T1, k, v, loc, "fresh") IN
                       IF Policy = "woi" /\ loc # "inmem" THEN Enqueue(T3, k, v, "fresh") ELSE T3 IN
        S' = IF nt THEN T2 ELSE Pump(T2)
-    /\ out' = [op |-> [a |-> IF nt THEN "ins_nt" ELSE "ins", k |-> k, loc |-> KeyLoc[k]], res |-> 0]
+    /\ out' = [op |-> [a |-> IF hold THEN "ins_h" ELSE IF nt THEN "ins_nt" ELSE "ins", k |-> k, loc |-> KeyLoc[k]], res |-> 0]
 
-Insert(k) == InsertGen(k, FALSE)
+Insert(k) == InsertGen(k, FALSE, FALSE)
 \* insert immediately followed by the caller's next call (the flusher task does not run in between)
-InsertNoTurn(k) == InsertGen(k, TRUE)
+InsertNoTurn(k) == InsertGen(k, TRUE, FALSE)
+\* the caller keeps the returned handle
+InsertHold(k) == InsertGen(k, FALSE, TRUE)
+
+RECURSIVE EnqueueAll(_, _)
+\* what the code does (finding F12, open): the record gets its sequence only now, so the drop of a handle to a
+\* version that has been superseded or removed meanwhile publishes that version again as the newest on disk;
+\* such keys are collected in `late` and are outside the invariants until their next insert
+EnqueueAll(T, hs) ==
+    IF hs = <<>> THEN T
+    ELSE LET k == Head(hs)[1]
+             v == Head(hs)[2]
+             T1 == Enqueue(T, k, v, "fresh") IN
+         EnqueueAll(IF T.truth[k] # v THEN [T1 EXCEPT !.late = @ \cup {k}] ELSE T1, Tail(hs))
+
+\* the caller drops the handles it kept: a phantom record goes down the pipe on its last drop (woe)
+DropHeld ==
+    /\ LET T == Begin(S) IN
+       S' = Pump(EnqueueAll([T EXCEPT !.heldph = <<>>], T.heldph))
+    /\ out' = [op |-> [a |-> "drop_h"], res |-> 0]
 
 Remove(k) ==
     /\ S.active
     /\ LET T == Begin(S)
            h == Hash[k]
-           T1 == [T EXCEPT !.mem = MemWithout(T, k), !.truth[k] = 0, !.loc[k] = "none",
-                           !.touched = @ \cup {k},
-                           !.keeper[k] = 0,        \* a removed key is no longer served from the write queue
-                           !.seq = @ + 1,
-                           !.index = IndexPut(@, h, [kind |-> "tomb", k |-> 0, v |-> 0, seq |-> T.seq]),
-                           !.buf = Append(@, <<"t", h, T.seq>>)] IN
+           T1 == DiskDelete([T EXCEPT !.mem = MemWithout(T, k), !.truth[k] = 0, !.loc[k] = "none",
+                                      !.touched = @ \cup {k}], k) IN
        S' = Pump(T1)
     /\ out' = [op |-> [a |-> "rem", k |-> k], res |-> 0]
 
@@ -270,7 +299,7 @@ GateStep == S.gate /\ S.inio /\ S.hold /\ S' = Pump(BatchDone(Begin(S))) /\ out'
 \* close(): flush memory through the pipe if configured (only write-on-eviction has a pipe), then
 \* the engine stops accepting work and waits for the flusher
 Close ==
-    /\ S.active /\ ~S.hold /\ ~S.gate
+    /\ S.active /\ ~S.hold /\ ~S.gate /\ S.heldph = <<>>
     /\ LET T == Pump(Begin(S))          \* HybridCachePipe::flush first waits for everything queued (store.wait())
            T1 == IF FlushOnClose /\ Policy = "woe"
                  THEN PipeSendAll([T EXCEPT !.mem = <<>>], T.mem)
@@ -296,7 +325,7 @@ Reopen ==
     /\ ~S.active
     /\ S' = [S0 EXCEPT !.disk = S.disk, !.tlog = S.tlog, !.index = Recovered(S), !.seq = MaxSeq(S) + 1,
                       !.truth = S.truth, !.loc = S.loc, !.nv = S.nv, !.vkey = S.vkey, !.touched = {},
-                      !.shed = S.shed]
+                      !.shed = S.shed, !.late = S.late]
     /\ out' = [op |-> [a |-> "reopen"], res |-> 0]
 
 -------------------------------------------------------------------------------
@@ -306,8 +335,8 @@ Reopen ==
 WouldRead(k) == GetStep(S, k).res
 \* keys outside C01's claim: advice alternating between in-memory-only and disk (handled by the driver:
 \* a key keeps its class); keys whose latest write was shed by a full flush buffer (S.shed)
-NoStaleNoForeign == \A k \in Keys \ S.shed : WouldRead(k) \in {0, S.truth[k]}
-LastLookupOK == (out.op.a \in {"get", "fetch"} /\ out.op.k \notin S.shed) => out.res \in {0, S.truth[out.op.k]}
+NoStaleNoForeign == \A k \in Keys \ (S.shed \cup S.late) : WouldRead(k) \in {0, S.truth[k]}
+LastLookupOK == (out.op.a \in {"get", "fetch"} /\ out.op.k \notin S.shed \cup S.late) => out.res \in {0, S.truth[out.op.k]}
 
 \* C12
 InMemNeverOnDevice == \A e \in S.disk : \A k \in Keys : (e.k = k /\ S.truth[k] = e.v) => S.loc[k] # "inmem"
@@ -322,7 +351,7 @@ HitCausesNoWrite == (out.op.a = "get" /\ out.res # 0 /\ KeyLoc[out.op.k] # "ondi
 Collides(k) == \E k2 \in Keys \ {k} : Hash[k2] = Hash[k]
 ClosePersists ==
     (out.op.a = "reopen" /\ FlushOnClose) =>
-        \A k \in Keys \ S.shed : (S.truth[k] # 0 /\ S.loc[k] # "inmem" /\ ~Collides(k)) => WouldRead(k) = S.truth[k]
+        \A k \in Keys \ (S.shed \cup S.late) : (S.truth[k] # 0 /\ S.loc[k] # "inmem" /\ ~Collides(k)) => WouldRead(k) = S.truth[k]
 
 TypeOK == /\ Len(S.mem) <= MemCap
           /\ S.inio = (S.io # <<>>)
